@@ -128,7 +128,8 @@ Inductive tr_req : tr_reader -> list nat -> Prop :=
 | rq_joined rs cs : (forall r, In r rs -> tr_req r (tr_sub (tr_names r) cs)) -> tr_req (TrJoined rs) cs
 | rq_computed r k f cs : tr_req r (tr_without k cs) -> tr_req (TrComputed r k f) cs.
 
-(* the function of a computed column only sees the requested columns: it must not depend on the others *)
+(* the function of a computed column only sees the requested columns: it must not depend on the others
+   (nothing is asked of it when its column is not requested: it is not called then) *)
 Inductive tr_req_inv : tr_reader -> list nat -> Prop :=
 | ri_frame t cs : tr_req_inv (TrFrame t) cs
 | ri_csv t cs : tr_req_inv (TrCsv t) cs
@@ -138,8 +139,8 @@ Inductive tr_req_inv : tr_reader -> list nat -> Prop :=
     tr_req_inv r ocs -> tr_req_inv (TrMapped r m) cs
 | ri_joined rs cs : (forall r, In r rs -> tr_req_inv r (tr_sub (tr_names r) cs)) -> tr_req_inv (TrJoined rs) cs
 | ri_computed r k f cs :
-    f (tr_without k cs) (map (ch_select_row (tr_names r) (tr_without k cs)) (tr_drows r))
-    = f (tr_names r) (tr_drows r) ->
+    (In k cs -> f (tr_without k cs) (map (ch_select_row (tr_names r) (tr_without k cs)) (tr_drows r))
+                = f (tr_names r) (tr_drows r)) ->
     tr_req_inv r (tr_without k cs) -> tr_req_inv (TrComputed r k f) cs.
 
 (* shape of a chunk stream over rows R with names N: the c-chunks; an empty table gives no chunk
@@ -464,6 +465,14 @@ Proof.
   - apply Bool.negb_true_iff. apply Nat.eqb_neq. exact H2.
 Qed.
 
+Lemma tr_without_id k cs : ~ In k cs -> tr_without k cs = cs.
+Proof.
+  intros H. unfold tr_without. induction cs as [|x cs IH]; [reflexivity|]. simpl.
+  destruct (Nat.eqb x k) eqn:E.
+  - apply Nat.eqb_eq in E. exfalso. apply H. left. exact E.
+  - simpl. f_equal. apply IH. intros Hin. apply H. right. exact Hin.
+Qed.
+
 Lemma tr_without_nodup k cs : NoDup cs -> NoDup (tr_without k cs).
 Proof. intros H. unfold tr_without. apply NoDup_filter. exact H. Qed.
 
@@ -539,28 +548,89 @@ Proof.
   unfold tr_fr_map. rewrite tr_combine_map_r, map_map. reflexivity.
 Qed.
 
+(* the computed column is requested: func is called on every chunk *)
 Lemma tr_compute_frames_rowwise cs N fs tl :
-  (forall fr, In fr fs -> ch_names fr = N) -> ch_known (N ++ [k]) cs = true ->
+  (forall fr, In fr fs -> ch_names fr = N) -> ch_mem k cs = true -> ch_known (N ++ [k]) cs = true ->
   tr_compute_frames k f cs fs tl = (map (fun fr => ch_sel cs (tr_fr_map (N ++ [k]) (tr_ext N) fr)) fs, tl).
 Proof.
-  intros HN Hk. induction fs as [|fr fs IH]; [reflexivity|].
-  cbn [tr_compute_frames]. rewrite tr_add_col_rowwise.
+  intros HN Hm Hk. induction fs as [|fr fs IH]; [reflexivity|].
+  cbn [tr_compute_frames]. rewrite Hm, tr_add_col_rowwise.
   rewrite (HN fr) by (left; reflexivity). cbn [tr_fr_map ch_names]. rewrite Hk.
   rewrite IH by (intros x Hx; apply HN; right; exact Hx). reflexivity.
 Qed.
 
+(* the computed column is not requested: func is not called, every chunk is df[columns] of the inner chunk *)
+Lemma tr_compute_frames_skip cs N fs tl :
+  (forall fr, In fr fs -> ch_names fr = N) -> ch_mem k cs = false -> ch_known N cs = true ->
+  tr_compute_frames k f cs fs tl = (map (ch_sel cs) fs, tl).
+Proof.
+  intros HN Hm Hk. induction fs as [|fr fs IH]; [reflexivity|].
+  cbn [tr_compute_frames]. rewrite Hm.
+  rewrite (HN fr) by (left; reflexivity). rewrite Hk.
+  rewrite IH by (intros x Hx; apply HN; right; exact Hx). reflexivity.
+Qed.
+
+(* df[cs] of a row extended by a new last column k that is not requested = df[cs] of the row *)
+Lemma tr_select_row_ext_skip N cs (row : list Z) v : length row = length N -> ~ In k cs ->
+  ch_select_row (N ++ [k]) cs (row ++ [v]) = ch_select_row N cs row.
+Proof.
+  intros Hl Hk. apply ch_select_row_ext. intros x Hx.
+  rewrite ch_pick_app by exact Hl.
+  rewrite (ch_pick_notin x [k]) by (intros [E|[]]; apply Hk; rewrite E; exact Hx).
+  apply app_nil_r.
+Qed.
+
+Lemma tr_select_ext_skip N cs (R : list (list Z)) : Forall (fun row => length row = length N) R -> ~ In k cs ->
+  map (ch_select_row (N ++ [k]) cs) (map (tr_ext N) R) = map (ch_select_row N cs) R.
+Proof.
+  intros HR Hk. rewrite map_map. apply map_ext_in. intros row Hrow. rewrite Forall_forall in HR.
+  unfold tr_ext. apply tr_select_row_ext_skip; [apply HR; exact Hrow | exact Hk].
+Qed.
+
+(* (the rows must have the width of N: otherwise the new last cell is not the cell under k) *)
 Lemma tr_compute_sform c cs N R b : NoDup N -> ~ In k N -> incl cs (N ++ [k]) ->
+  Forall (fun row => length row = length N) R ->
   tr_compute_frames k f cs (fst (tr_sform c N R b)) None
   = tr_sform c cs (map (ch_select_row (N ++ [k]) cs) (map (tr_ext N) R)) b.
 Proof.
-  intros Hnd Hk Hincl.
+  intros Hnd Hk Hincl HR.
   assert (Hnd2 : NoDup (N ++ [k])).
   { apply tr_nodup_app_intro; [exact Hnd | repeat constructor; intros [] |].
     intros x Hx [<-|[]]. contradiction. }
-  rewrite (tr_compute_frames_rowwise cs N).
-  - rewrite <- map_map. rewrite tr_fr_map_sform. rewrite tr_sel_sform by assumption. reflexivity.
+  destruct (ch_mem k cs) eqn:Hm.
+  - rewrite (tr_compute_frames_rowwise cs N).
+    + rewrite <- map_map. rewrite tr_fr_map_sform. rewrite tr_sel_sform by assumption. reflexivity.
+    + intros fr Hfr. apply (tr_sform_names c N R b). exact Hfr.
+    + exact Hm.
+    + apply ch_known_incl. exact Hincl.
+  - apply ch_mem_false in Hm.
+    assert (Hincl' : incl cs N).
+    { intros x Hx. assert (Hx' := Hincl x Hx). apply in_app_or in Hx'.
+      destruct Hx' as [Hx'|[E|[]]]; [exact Hx'|]. exfalso. apply Hm. rewrite E. exact Hx. }
+    rewrite (tr_compute_frames_skip cs N).
+    + rewrite tr_sel_sform by assumption. rewrite tr_select_ext_skip by assumption. reflexivity.
+    + intros fr Hfr. apply (tr_sform_names c N R b). exact Hfr.
+    + apply ch_mem_false. exact Hm.
+    + apply ch_known_incl. exact Hincl'.
+Qed.
+
+(* columns=None: every chunk gets the computed column *)
+Lemma tr_compute_frames_all_rowwise N fs tl :
+  (forall fr, In fr fs -> ch_names fr = N) ->
+  tr_compute_frames_all k f fs tl = (map (tr_fr_map (N ++ [k]) (tr_ext N)) fs, tl).
+Proof.
+  intros HN. induction fs as [|fr fs IH]; [reflexivity|].
+  cbn [tr_compute_frames_all]. rewrite tr_add_col_rowwise.
+  rewrite (HN fr) by (left; reflexivity).
+  rewrite IH by (intros x Hx; apply HN; right; exact Hx). reflexivity.
+Qed.
+
+Lemma tr_compute_all_sform c N R b :
+  tr_compute_frames_all k f (fst (tr_sform c N R b)) None = tr_sform c (N ++ [k]) (map (tr_ext N) R) b.
+Proof.
+  rewrite (tr_compute_frames_all_rowwise N).
+  - rewrite tr_fr_map_sform. reflexivity.
   - intros fr Hfr. apply (tr_sform_names c N R b). exact Hfr.
-  - apply ch_known_incl. exact Hincl.
 Qed.
 
 Lemma tr_rows_computed r cs :
@@ -695,8 +765,14 @@ Proof.
   destruct (IH cs' Hnd' Hincl' Hreq') as [Hread [Hstream [Hlen Hw]]].
   rewrite (tr_rows_computed k f g Hf).
   repeat split.
-  - cbn [tr_read]. fold cs'. rewrite Hread. rewrite (tr_add_col_rowwise k f g Hf).
-    cbn [ch_names ch_whole]. rewrite tr_fr_map_whole. apply tr_select_whole; assumption.
+  - cbn [tr_read]. fold cs'. rewrite Hread. destruct (ch_mem k cs) eqn:Hm.
+    + rewrite (tr_add_col_rowwise k f g Hf).
+      cbn [ch_names ch_whole]. rewrite tr_fr_map_whole. apply tr_select_whole; assumption.
+    + (* the computed column is not requested: func is not called *)
+      apply ch_mem_false in Hm.
+      assert (Hcs' : incl cs cs').
+      { intros x Hx. apply tr_without_In. split; [exact Hx|]. intros E. apply Hm. rewrite <- E. exact Hx. }
+      rewrite (tr_select_ext_skip k g cs' cs _ Hw Hm). apply tr_select_whole; assumption.
   - cbn [tr_stream tr_eb]. fold cs'. rewrite Hstream. cbn [snd].
     apply (tr_compute_sform k f g Hf); assumption.
   - rewrite !map_length. exact Hlen.
@@ -783,6 +859,30 @@ Proof.
   - apply tr_stage1_mapped; [exact Hc | | exact Hwf]. apply IH. inversion Hwf; assumption.
   - apply tr_stage1_joined; assumption.
   - apply tr_stage1_computed; [exact Hc | | exact Hwf]. apply IH. inversion Hwf; assumption.
+Qed.
+
+(* a computed column that is not requested costs nothing and cannot fail: func is not called, whatever it is
+   (no row-wise contract needed) — reading through the computed reader is reading the inner reader *)
+Theorem tr_computed_skip c r k f cs : 0 < c -> tr_wf c r -> NoDup cs -> incl cs (tr_names r) -> tr_req r cs ->
+  ~ In k cs ->
+  tr_read (TrComputed r k f) (Some cs) = tr_read r (Some cs)
+  /\ tr_stream (TrComputed r k f) c (Some cs) = tr_stream r c (Some cs).
+Proof.
+  intros Hc Hwf Hnd Hincl Hreq Hk.
+  destruct (tr_stage1_all c Hc r Hwf cs Hnd Hincl Hreq) as [Hread [Hstream [_ Hw]]].
+  assert (Hm : ch_mem k cs = false) by (apply ch_mem_false; exact Hk).
+  assert (Hid : map (ch_select_row cs cs) (tr_rows r cs) = tr_rows r cs).
+  { rewrite <- (map_id (tr_rows r cs)) at 2. apply map_ext_in. intros row Hrow. rewrite Forall_forall in Hw.
+    apply ch_select_row_all; [exact Hnd | apply Hw; exact Hrow]. }
+  split.
+  - cbn [tr_read]. rewrite (tr_without_id k cs Hk), Hread, Hm.
+    rewrite (tr_select_whole EKey cs (tr_rows r cs) cs Hnd (incl_refl cs)), Hid. reflexivity.
+  - cbn [tr_stream]. rewrite (tr_without_id k cs Hk), Hstream. cbn [snd].
+    rewrite (tr_compute_frames_skip k f cs cs).
+    + rewrite (tr_sel_sform c cs (tr_rows r cs) (tr_eb r) cs Hnd (incl_refl cs)), Hid. reflexivity.
+    + intros fr Hfr. apply (tr_sform_names c cs (tr_rows r cs) (tr_eb r)). exact Hfr.
+    + exact Hm.
+    + apply ch_known_incl. apply incl_refl.
 Qed.
 
 (* ================= stage 2: tr_rows = the requested columns of the table ================= *)
@@ -951,6 +1051,15 @@ Proof.
     destruct (tr_den_wf c r Hr) as [Hw _].
     rewrite (tr_rows_computed k f g Hf). fold cs'. rewrite (IH Hr cs' Hnd' Hincl' Hinv').
     unfold tr_select. rewrite (tr_drows_computed k f g Hf). cbn [tr_names].
+    destruct (in_dec Nat.eq_dec k cs) as [Hin|Hnin].
+    2:{ (* the computed column is not requested: both sides are df[cs] of the inner table *)
+      assert (Ecs : cs' = cs) by (apply tr_without_id; exact Hnin).
+      rewrite (tr_select_ext_skip k g (tr_names r) cs (tr_drows r) Hw Hnin).
+      rewrite (tr_select_ext_skip k g cs' cs _ (tr_leaf_widths _ _ _ Hnr Hw Hincl') Hnin).
+      rewrite Ecs in *. rewrite map_map. apply map_ext_in. intros d Hd.
+      rewrite Forall_forall in Hw.
+      apply ch_select_row_all; [exact Hnd|]. apply ch_select_row_length; [exact Hnr | apply Hw; exact Hd | exact Hincl']. }
+    assert (Hfinv' := Hfinv Hin). clear Hfinv. rename Hfinv' into Hfinv.
     rewrite !map_map. apply map_ext_in. intros d Hd.
     rewrite Forall_forall in Hw. assert (Hdl := Hw d Hd).
     (* the function sees only the requested columns, and does not mind *)
@@ -1131,7 +1240,7 @@ Theorem tr_reader_computed c r k f g cs : 0 < c -> tr_wf c r -> ~ In k (tr_names
 Proof.
   intros Hc Hwf Hk Hf Hnd Hincl Hreq Hinv Hfi.
   destruct (tr_reader_ok c (TrComputed r k f) cs Hc (wf_computed c r k f g Hwf Hk Hf) Hnd Hincl
-                         (rq_computed r k f cs Hreq) (ri_computed r k f cs Hfi Hinv))
+                         (rq_computed r k f cs Hreq) (ri_computed r k f cs (fun _ => Hfi) Hinv))
     as [chs [H1 [H2 [H3 _]]]].
   assert (E : tr_select (TrComputed r k f) cs
               = map (ch_select_row (tr_names r ++ [k]) cs) (map (fun row => row ++ [g (tr_names r) row]) (tr_drows r))).
@@ -1155,28 +1264,16 @@ Proof.
   - intros j cn p Hj Hp. apply (ch_select_row_spec (tr_names r) cs row Hnd Hl Hincl j cn p Hj Hp).
 Qed.
 
-(* ----- the guards are necessary: behaviour of the code outside them ----- *)
-(* columns=None on a computed reader raises (typeguard), whole and chunked *)
-Lemma tr_computed_none r k f c :
-  tr_read (TrComputed r k f) None = Err EType /\ tr_chunks (TrComputed r k f) c None = Err EType.
-Proof. split; reflexivity. Qed.
-
 (* ================= columns=None: all columns, in table order ================= *)
-(* readers without a computed column (those raise on None, see tr_computed_none) *)
-Inductive tr_plain : tr_reader -> Prop :=
-| pl_frame t : tr_plain (TrFrame t)
-| pl_csv t : tr_plain (TrCsv t)
-| pl_parquet t bl bl0 : tr_plain (TrParquet t bl bl0)
-| pl_mapped r m : tr_plain r -> tr_plain (TrMapped r m)
-| pl_joined rs : Forall tr_plain rs -> tr_plain (TrJoined rs).
-
+(* every reader kind, computed readers included (after the repair of /repo: columns=None on a computed reader reads
+   the inner reader with columns=None and adds the computed column, whole and chunk by chunk) *)
 Definition tr_stage_none (c : nat) (r : tr_reader) : Prop :=
   tr_read r None = Ok (ch_whole (tr_names r) (tr_drows r))
   /\ tr_stream r c None = tr_sform c (tr_names r) (tr_drows r) (tr_eb r).
 
-Theorem tr_stage_none_all c : 0 < c -> forall r, tr_wf c r -> tr_plain r -> tr_stage_none c r.
+Theorem tr_stage_none_all c : 0 < c -> forall r, tr_wf c r -> tr_stage_none c r.
 Proof.
-  intros Hc r. induction r as [t|t|t bl bl0|r m IH|rs IH|r k f IH] using tr_reader_ind'; intros Hwf Hpl.
+  intros Hc r. induction r as [t|t|t bl bl0|r m IH|rs IH|r k f IH] using tr_reader_ind'; intros Hwf.
   - split; [reflexivity|]. cbn [tr_stream tr_names tr_drows tr_eb tr_finish].
     assert (E : Nat.eqb c 0 = false) by (apply Nat.eqb_neq; lia). rewrite E, tr_sform_false. reflexivity.
   - split; [reflexivity|]. cbn [tr_stream tr_names tr_drows tr_eb].
@@ -1185,19 +1282,19 @@ Proof.
     split; [reflexivity|]. cbn [tr_stream tr_names tr_drows tr_eb].
     assert (E : Nat.eqb c 0 = false) by (apply Nat.eqb_neq; lia). rewrite E.
     rewrite tr_pq_frames_ok by assumption. rewrite tr_sform_false. reflexivity.
-  - inversion Hwf as [| | |r' m' Hr Hndm| |]; subst. inversion Hpl as [| | |r' m' Hp|]; subst.
-    destruct (IH Hr Hp) as [H1 H2]. split.
+  - inversion Hwf as [| | |r' m' Hr Hndm| |]; subst.
+    destruct (IH Hr) as [H1 H2]. split.
     + cbn [tr_read tr_names tr_drows]. rewrite H1. reflexivity.
     + cbn [tr_stream tr_names tr_drows tr_eb]. rewrite H2. cbn [snd]. rewrite tr_rename_sform. reflexivity.
-  - inversion Hwf as [| | | |rs' Hne Hall Hn Hndn|]; subst. inversion Hpl as [| | | |rs' Hps]; subst.
+  - inversion Hwf as [| | | |rs' Hne Hall Hn Hndn|]; subst.
     destruct rs as [|r0 rs']; [congruence|].
-    rewrite Forall_forall in IH, Hall, Hps.
+    rewrite Forall_forall in IH, Hall.
     pose (mem := fun r : tr_reader => (tr_names r, tr_drows r, tr_eb r) : tr_mem).
     assert (Hm : forall r, In r (r0 :: rs') ->
               tr_read r None = Ok (ch_whole (tr_mN (mem r)) (tr_mR (mem r)))
               /\ tr_stream r c None = tr_sform c (tr_mN (mem r)) (tr_mR (mem r)) (tr_mb (mem r))
               /\ length (tr_mR (mem r)) = tr_nrows (TrJoined (r0 :: rs'))).
-    { intros r Hr. destruct (IH r Hr (Hall r Hr) (Hps r Hr)) as [H1 H2].
+    { intros r Hr. destruct (IH r Hr (Hall r Hr)) as [H1 H2].
       destruct (tr_den_wf c r (Hall r Hr)) as [_ H3]. rewrite <- (Hn r Hr). auto. }
     assert (Hlens : forall p, In p (map mem rs') -> length (tr_mR p) = length (tr_mR (mem r0))).
     { intros p Hp. apply in_map_iff in Hp. destruct Hp as [r [<- Hr]].
@@ -1219,17 +1316,36 @@ Proof.
       cbn [map]. rewrite <- (map_map mem (fun p => tr_sform c (tr_mN p) (tr_mR p) (tr_mb p))).
       rewrite tr_join2_fold by exact Hlens. cbn [tr_finish tr_eb].
       rewrite (map_map mem tr_mb). reflexivity.
-  - inversion Hpl.
+  - (* computed: the inner reader delivers all its columns, func (row-wise) adds the new last one *)
+    inversion Hwf as [| | | | |r' k' f' g Hr Hk Hf]; subst.
+    destruct (IH Hr) as [H1 H2]. unfold tr_stage_none.
+    rewrite (tr_drows_computed k f g Hf). cbn [tr_names tr_eb]. split.
+    + cbn [tr_read]. rewrite H1. rewrite (tr_add_col_rowwise k f g Hf).
+      cbn [ch_names ch_whole]. rewrite tr_fr_map_whole. reflexivity.
+    + cbn [tr_stream]. rewrite H2. cbn [snd]. apply (tr_compute_all_sform k f g Hf).
 Qed.
 
-Theorem tr_reader_none c r : 0 < c -> tr_wf c r -> tr_plain r ->
+Theorem tr_reader_none c r : 0 < c -> tr_wf c r ->
   exists chs, tr_chunks r c None = Ok chs
     /\ tr_read r None = Ok (ch_whole (tr_names r) (tr_drows r))
     /\ tr_chunked c (tr_names r) (tr_drows r) chs.
 Proof.
-  intros Hc Hwf Hpl. destruct (tr_stage_none_all c Hc r Hwf Hpl) as [H1 H2].
+  intros Hc Hwf. destruct (tr_stage_none_all c Hc r Hwf) as [H1 H2].
   exists (fst (tr_sform c (tr_names r) (tr_drows r) (tr_eb r))). split; [|split].
   - unfold tr_chunks. rewrite H2. reflexivity.
   - exact H1.
   - apply tr_sform_chunked. exact Hc.
+Qed.
+
+(* the computed reader spelled out: all columns of the inner table, then func row by row as the last column *)
+Theorem tr_reader_computed_none c r k f g : 0 < c -> tr_wf c r -> ~ In k (tr_names r) ->
+  (forall names rows, f names rows = Ok (map (g names) rows)) ->
+  exists chs, tr_chunks (TrComputed r k f) c None = Ok chs
+    /\ tr_read (TrComputed r k f) None
+       = Ok (ch_whole (tr_names r ++ [k]) (map (fun row => row ++ [g (tr_names r) row]) (tr_drows r)))
+    /\ tr_chunked c (tr_names r ++ [k]) (map (fun row => row ++ [g (tr_names r) row]) (tr_drows r)) chs.
+Proof.
+  intros Hc Hwf Hk Hf.
+  destruct (tr_reader_none c (TrComputed r k f) Hc (wf_computed c r k f g Hwf Hk Hf)) as [chs [H1 [H2 H3]]].
+  rewrite (tr_drows_computed k f g Hf) in *. exists chs. auto.
 Qed.
